@@ -159,6 +159,35 @@ func checkC16(w *World, c *Check, tier string) {
 	}
 	clos := w.Reach(roots, func(f *ssa.Function) bool { return isFlattener(f) })
 	checkListAlignment(w, c)
+	// (cross) flattening treats each list on its own: the cross-list de-duplicator (what Recipients() uses, it deletes
+	// from every later list what an earlier one already names) is never given more than one list — otherwise an
+	// addressee named in both `to` and `bcc` silently disappears from bcc when the value is flattened
+	if dd := w.Func("ItemCollectionDeduplication"); dd != nil {
+		ncalls := 0
+		full := w.Reach(roots, nil)
+		for _, f := range full {
+			if !strings.HasPrefix(f.Name(), "Flatten") && (f.Parent() == nil || !strings.HasPrefix(f.Parent().Name(), "Flatten")) {
+				continue
+			}
+			for _, call := range callsIn(f) {
+				if call.Common().StaticCallee() != dd || len(call.Common().Args) != 1 {
+					continue
+				}
+				ncalls++
+				key := fmt.Sprintf("%s:dedup#%d", funcName(f), ncalls)
+				elems, ok := variadicElems(call.Common().Args[0])
+				switch {
+				case !ok:
+					c.bad("C16.cross", key, w.InstrPos(call), "cannot tell how many lists are handed to the cross-list de-duplication inside the flattening (undecided)")
+				case len(elems) > 1:
+					c.bad("C16.cross", key, w.InstrPos(call), fmt.Sprintf("%s de-duplicates %d lists against each other while flattening: an entry that also occurs in an earlier list is deleted from the later one (an addressee in both to and bcc loses its bcc entry), although flattening must leave every other entry as it was", funcName(f), len(elems)))
+				default:
+					c.ok("C16.cross", key, w.InstrPos(call), "one list, de-duplicated against itself only")
+				}
+			}
+		}
+		c.stat("dedup_calls_in_flatteners", ncalls)
+	}
 	assigns := collectAssigns(w, pr, clos)
 	covered := map[string]bool{}
 	for _, a := range assigns {
@@ -569,6 +598,29 @@ func checkC18(w *World, c *Check, tier string) {
 			}
 			if inverted != "" {
 				c.bad("C18.merge", key, w.InstrPos(a.instr), fmt.Sprintf("to.%s is overwritten with from.%s only when %s, i.e. when the update does NOT set it: a value present in `to` is lost and a value present in `from` is never copied", fname, fname, inverted))
+				continue
+			}
+			// a guard that looks at a DIFFERENT property of the update (and not at this one) decides whether this property
+			// is merged: copy-paste slip in one of many identical blocks (startTime merged when endTime is set)
+			foreign := ""
+			for _, g := range a.guards {
+				own, otherProp := false, ""
+				for _, r := range g.refs {
+					if r.Root != fromRoot || len(r.Names) == 0 {
+						continue
+					}
+					if r.Names[0] == fname {
+						own = true
+					} else if r.Names[0] != "ID" && r.Names[0] != "Type" {
+						otherProp = r.Names[0]
+					}
+				}
+				if !own && otherProp != "" {
+					foreign = otherProp
+				}
+			}
+			if foreign != "" {
+				c.bad("C18.merge", key, w.InstrPos(a.instr), fmt.Sprintf("whether to.%s takes from.%s is decided by a test of from.%s, a different property: an update that sets only %s is not merged, and one that sets only %s overwrites to.%s with the unset value", fname, fname, foreign, fname, foreign, fname))
 				continue
 			}
 			if a.helper != nil && w.InPkg(a.helper) && a.helper.Signature.Params().Len() == 2 {
